@@ -143,8 +143,8 @@ prop("C08", quick={"runs": 40000}, thorough={"runs": 100000000, "budget_s": 600}
      "janitor runs cleanup/eviction cycles concurrently. Histories (invoke/return event sequence numbers, batch operations expanded into one "
      "pseudo-operation per key) are checked with porcupine against a nondeterministic per-key model. Non-trivial: two operations of different "
      "clients touching the same key (or a batch / janitor cycle) overlapped; distinct = distinct (scenario, schedule signature).",
-     rules=["C08.R1 porcupine: Illegal is a violation, Unknown is inconclusive and never reported", "C08.R2 Walk reports only stored entries and visits every unchanged entry exactly once"],
-     probes=["read_overlapping_write", "delete_overlapping_write", "read_overlapping_delete", "janitor_cycle_overlapping_write", "walk_checked", "walk_unchanged_entry_checked"])
+     rules=["C08.R1 porcupine: Illegal is a violation, Unknown is inconclusive and never reported", "C08.R2 Walk reports only stored entries, visits every unchanged entry exactly once, and never an entry that a completed Delete / DeleteAll / overwrite had replaced before the part of the walk that reached it began"],
+     probes=["read_overlapping_write", "delete_overlapping_write", "read_overlapping_delete", "janitor_cycle_overlapping_write", "walk_checked", "walk_unchanged_entry_checked", "walk_visit_freshness_checked"])
 prop("C09", quick={"runs": 12000}, thorough={"runs": 100000000, "budget_s": 600},
      rule="Half of the runs: sequences of backend operations over families of 2-4 constructed xxhash64 collisions (64-byte keys, asserted with the "
      "real xxhash.Sum64) plus ordinary keys on all three backends, key buffers overwritten right after each call, checked against a lossy reference "
